@@ -206,8 +206,36 @@ def compound(r, d, ind):
     return [ind + "match %s:" % n, ind2 + "case {'k': v}:"] + body(r, d, ind2 + "  ") + [ind2 + "case _:"] + body(r, d, ind2 + "  ")
 
 
+def tail_compound(r, ind="", depth=0):
+    """a (decorated) def / async def / class whose LAST physical line(s) are the comment-looking tail
+    of a triple-quoted string; also as the last statement of an enclosing def, and with 0-3 decorators"""
+    ind2 = ind + r.choice(["    ", "  ", "\t"])
+    n = name(r)
+    hdr = []
+    for _ in range(r.choice([0, 1, 1, 2, 3])):
+        hdr += [ind + x for x in decorator(r).split("\n")]
+    kind = r.choice(["def", "def", "async def", "class"])
+    q = r.choice(['"""', "'''"])
+    tail = r.choice(["# end", "#", "# tail ", "  # x", "# a\n# b", "\n# c", "# é"])
+    if kind == "class":
+        hdr.append(ind + "class %s%s:" % ("K" + r.choice("abc"), r.choice(["", "(B)", "[T]"])))
+        last = ind2 + "%s = %s\n%s%s" % (n, q, tail, q)
+    else:
+        hdr.append(ind + "%s %s(p):" % (kind, n if n.isascii() else "g"))
+        if depth == 0 and r.random() < .3:
+            return hdr + [ind2 + "x = 1"] + tail_compound(r, ind2, 1)     # nested decorated def as last statement
+        last = ind2 + r.choice(["return %s\n%s%s", "x = f%sa{p}\n%s%s", "%sdoc\n%s%s"]) % (q, tail, q)
+    mid = [ind2 + r.choice(["x = 1", "pass", "# c", "import os"])] if r.random() < .5 else []
+    return hdr + mid + [last]
+
+
 def element(r, import_bias=.0):
     k = r.random()
+    if k < .05:
+        out = tail_compound(r)
+        if r.random() < .4:
+            out.append(r.choice([comment(r), "", "   "]))
+        return out
     if k < .32 + import_bias:
         s = simple(r) if r.random() > import_bias else imp(r)
         if r.random() < .2 and not s.endswith("\n"):
